@@ -2,6 +2,7 @@ import OpdaModel.Wire
 import OpdaModel.Emp
 import OpdaModel.Band
 import OpdaModel.Drv.Emp
+import OpdaModel.Steck
 /-! Line-protocol handlers for the band distributions of `confidence_bands` (exact arithmetic). -/
 namespace Opda.Drv.Band
 open Opda.Wire Opda.Emp Opda.Band
@@ -18,6 +19,12 @@ def parse (args : List String) : Option (Ext × Ext × List Ext × List Rat × L
   | _ => none
 
 def handle (fn : String) (args : List String) : Option String := do
+  if fn == "steck" then
+    -- `n α₁…αₙ n β₁…βₙ`: exact rectangle probability of the uniform order statistics
+    let (al, rest) ← takeList parseRat? args
+    let (be, _) ← takeList parseRat? rest
+    if al.length ≠ be.length || al.isEmpty then none
+    else return ratStr (Opda.Steck.coverage al.toArray be.toArray)
   let (a, b, ys, levels, rest) ← parse args
   let supp := support Ext.negInf Ext.posInf a b (bandObs a b ys levels)
   match fn with
